@@ -65,6 +65,8 @@ ItemsQ == {[t |-> "Byte", v |-> <<253>>], [t |-> "Bool", v |-> <<1>>], [t |-> "B
 \* quick reader configuration: calls that are aliases of another call (same operator) are offered as first call only
 AliasOps == {"NextUint8", "NextInt16", "NextInt32", "NextInt64", "NextString", "ReadString"}
 AliasLimit == act'.name \in AliasOps => ncalls = 0
+\* sinks are created fresh, or over dirty spare capacity (stale bytes 0xFF / 0x02, enough for every item)
+SparesMC == {<<>>, Fill(48, 255), Fill(48, 2)}
 NoBufs == {<<>>}
 WriterActs == {"Write"}
 AllActs == ReaderActs \cup WriterActs
@@ -73,6 +75,6 @@ Empty == {}
 \* `to' lists only what a step can change (buf never changes); the python side completes it from `from'
 Edge == PrintT(<<"EDGE", ToJson([from |-> State, act |-> act', res |-> res',
                                  leg |-> LegacyRes(act'.name, act'.n, buf, off),
-                                 to |-> [off |-> off', sink |-> sink', items |-> items']])>>)
+                                 to |-> [off |-> off', sink |-> sink', spare |-> spare', items |-> items']])>>)
 InitOut == (TLCGet("level") = 1) => PrintT(<<"INIT", ToJson(State)>>)
 =============================================================================
